@@ -84,7 +84,7 @@ func (u *Unit) checkInvariants(st *State, ls *LoopSpec, n int, phase string, bin
 	if ls == nil {
 		return
 	}
-	if phase == "keep" && len(ls.Invariants) > 0 && !u.inCommute && len(u.inlineStack) == 0 {
+	if phase == "keep" && len(ls.Invariants) > 0 && !u.inCommute && len(u.inlineStack) == len(u.spliceDecls) {
 		// vacuity guard: the end of the body of a loop that carries an invariant is reachable (otherwise the
 		// "keep" obligations hold for no reason)
 		u.cover(st, fmt.Sprintf("cover#loop#%d", n), fmt.Sprintf("the end of the body of loop %d is reachable", n))
@@ -132,6 +132,10 @@ func (u *Unit) execFor(s *ast.ForStmt, st *State) []Outcome {
 	}
 	if autoVar != nil {
 		st.assume("(>= " + st.env[autoVar].T + " " + autoLo + ")")
+		// the counter of a counted loop and the ghost iteration counter move together (the body does not assign the
+		// counter, `continue` runs the post statement): a clause may use either, so rewriting a range loop as an
+		// index loop (or back) keeps `idx`-based invariants provable
+		st.assume(eq(gidx.T, "(- "+st.env[autoVar].T+" "+autoLo+")"))
 	}
 	u.assumeInvariants(st, ls, bind)
 	var variant0 string
